@@ -54,10 +54,10 @@ func runC17(w *World, pi interface{}) {
 		p.Clients = p.Clients[:6]
 	}
 	type hrec struct {
-		msgID               string
-		sid                 string
-		remote, local       string
-		okS, okR, okL       bool
+		msgID         string
+		sid           string
+		remote, local string
+		okS, okR, okL bool
 	}
 	var hrecs []hrec
 	nSrv := 0
@@ -106,15 +106,15 @@ func runC17(w *World, pi interface{}) {
 	}
 	w.Armed = true
 	type cst struct {
-		ok       bool
-		sid      string
-		local    string // the node announced to the client
-		remote   string
-		got      []string
-		sent     []string
-		done     *Flag
-		err      error
-		ch       *lime.ClientChannel
+		ok     bool
+		sid    string
+		local  string // the node announced to the client
+		remote string
+		got    []string
+		sent   []string
+		done   *Flag
+		err    error
+		ch     *lime.ClientChannel
 	}
 	cs := make([]*cst, len(p.Clients))
 	for i := range p.Clients {
